@@ -70,6 +70,70 @@ pub proof fn lemma_layout(t: int, al: int, n: int, sb: int)
         assert((sb + 1 - nl) * b <= (n - nl) * b) by (nonlinear_arith) requires sb + 1 <= n, b >= 0;
     }
 }
+pub proof fn lemma_sym_off_mono(t: int, al: int, n: int, a: int, b: int)
+    requires layout_ok(t, al, n), 0 <= a <= b <= n,
+    ensures sym_off(t, al, n, a) <= sym_off(t, al, n, b), 0 <= sym_off(t, al, n, a), sym_off(t, al, n, b) <= t,
+    decreases b - a,
+{
+    if a < b { lemma_layout(t, al, n, b - 1); lemma_sym_off_mono(t, al, n, a, b - 1); }
+    if a < n { lemma_layout(t, al, n, a); } else { lemma_layout(t, al, n, n - 1); }
+    if b < n { lemma_layout(t, al, n, b); } else { lemma_layout(t, al, n, n - 1); }
+}
+// where symbol idx goes (RFC 6330 4.4.1.2): sub-block sb occupies block bytes [K*sym_off(sb), K*sym_off(sb+1)) as K sub-symbols of
+// sub_bytes(sb) bytes; the idx-th of them receives bytes [sym_off(sb), sym_off(sb+1)) of the symbol
+pub open spec fn dst_start(t: int, al: int, n: int, k: int, idx: int, sb: int) -> int { k * sym_off(t, al, n, sb) + sub_bytes(t, al, n, sb) * idx }
+pub proof fn lemma_dst_range(t: int, al: int, n: int, k: int, idx: int, sb: int)
+    requires layout_ok(t, al, n), 0 <= sb < n, 0 <= idx < k,
+    ensures k * sym_off(t, al, n, sb) <= dst_start(t, al, n, k, idx, sb),
+            dst_start(t, al, n, k, idx, sb) + sub_bytes(t, al, n, sb) <= k * sym_off(t, al, n, sb + 1),
+            0 <= k * sym_off(t, al, n, sb), k * sym_off(t, al, n, sb + 1) <= k * t,
+{
+    lemma_layout(t, al, n, sb);
+    let so = sym_off(t, al, n, sb); let by = sub_bytes(t, al, n, sb); let so1 = sym_off(t, al, n, sb + 1);
+    assert(by * idx >= 0 && by * idx + by <= by * k) by (nonlinear_arith) requires 0 <= idx < k, by >= 0;
+    assert(k * so1 == k * so + by * k) by (nonlinear_arith) requires so1 == so + by;
+    assert(k * so >= 0 && k * so1 <= k * t) by (nonlinear_arith) requires 0 <= so <= so1 <= t, k >= 0;
+}
+// THE LAYOUT, pointwise: after un-interleaving symbol idx, byte b of its sb-th sub-symbol sits at dst_start(sb) + b,
+// and every block byte outside those N ranges is unchanged
+pub proof fn lemma_unpack_pointwise(t: int, al: int, n: int, k: int, before: Seq<u8>, sym: Seq<u8>, idx: int, m: nat)
+    requires layout_ok(t, al, n), 0 <= idx < k, before.len() == t * k, sym.len() == t, m <= n,
+    ensures
+        unpack_upto(t, al, n, k, before, sym, idx, m).len() == t * k,
+        forall |sb: int, b: int| 0 <= sb < m && 0 <= b < sub_bytes(t, al, n, sb) ==>
+            #[trigger] unpack_upto(t, al, n, k, before, sym, idx, m)[dst_start(t, al, n, k, idx, sb) + b] == sym[sym_off(t, al, n, sb) + b],
+        forall |p: int| 0 <= p < t * k && (forall |sb: int| 0 <= sb < m ==> !(#[trigger] dst_start(t, al, n, k, idx, sb) <= p && p < dst_start(t, al, n, k, idx, sb) + sub_bytes(t, al, n, sb)))
+            ==> #[trigger] unpack_upto(t, al, n, k, before, sym, idx, m)[p] == before[p],
+    decreases m,
+{
+    if m > 0 {
+        let sbl = m - 1;
+        lemma_unpack_pointwise(t, al, n, k, before, sym, idx, sbl as nat);
+        let prev = unpack_upto(t, al, n, k, before, sym, idx, sbl as nat);
+        let cur = unpack_upto(t, al, n, k, before, sym, idx, m);
+        lemma_dst_range(t, al, n, k, idx, sbl); lemma_layout(t, al, n, sbl);
+        let at = dst_start(t, al, n, k, idx, sbl); let by = sub_bytes(t, al, n, sbl); let so = sym_off(t, al, n, sbl);
+        assert(k * t == t * k) by (nonlinear_arith);
+        assert(cur.len() == t * k);
+        assert forall |sb: int, b: int| 0 <= sb < m && 0 <= b < sub_bytes(t, al, n, sb) implies
+            #[trigger] cur[dst_start(t, al, n, k, idx, sb) + b] == sym[sym_off(t, al, n, sb) + b] by {
+            if sb == sbl {
+            } else {
+                lemma_dst_range(t, al, n, k, idx, sb); lemma_sym_off_mono(t, al, n, sb + 1, sbl);
+                assert(k * sym_off(t, al, n, sb + 1) <= k * sym_off(t, al, n, sbl)) by (nonlinear_arith) requires sym_off(t, al, n, sb + 1) <= sym_off(t, al, n, sbl), k >= 0;
+                assert(cur[dst_start(t, al, n, k, idx, sb) + b] == prev[dst_start(t, al, n, k, idx, sb) + b]);
+            }
+        }
+        assert forall |p: int| 0 <= p < t * k && (forall |sb: int| 0 <= sb < m ==> !(#[trigger] dst_start(t, al, n, k, idx, sb) <= p && p < dst_start(t, al, n, k, idx, sb) + sub_bytes(t, al, n, sb)))
+            implies #[trigger] cur[p] == before[p] by {
+            assert(dst_start(t, al, n, k, idx, sbl) == at);
+            assert(!(at <= p && p < at + by));
+            assert(cur[p] == prev[p]);
+        }
+    } else {
+        assert(k * t == t * k) by (nonlinear_arith);
+    }
+}
 } // verus!
 '''
 
